@@ -21,6 +21,11 @@ Leaf == {S(k) : k \in SiteKinds}
         \cup (IF "userdecl" \in ItemKinds THEN {UserDecl("_slot"), UserDecl("_a"), UserDecl("_createVNode"), UserDecl("_isSlot"), UserDecl("_Fragment")} ELSE {})
         \cup (IF "classfield" \in ItemKinds THEN {ClassField(S(k)) : k \in SiteKinds \cap {"call", "ident"}} ELSE {})
         \cup (IF "arrow" \in ItemKinds THEN {ArrowExpr(S(k)) : k \in SiteKinds} \cup {ArrowExpr(Assign("a", S("ident")))} ELSE {})
+        \cup (IF "arrowparam" \in ItemKinds
+              THEN {ArrowP(S("call"), S(k2)) : k2 \in SiteKinds \cap {"plain", "call"}}
+                   \cup {ArrowP(S(k), S("plain")) : k \in SiteKinds \cap {"ident"}}
+                   \cup {ArrowBlockP(S("call"), <<>>)} \cup {ArrowBlockP(S("call"), <<S(k2)>>) : k2 \in SiteKinds \cap {"call"}}
+              ELSE {})
 Bodies(d) == UNION {[1..n -> Items(d)] : n \in 0..MaxBody}
 Items(d) ==
   IF d = 0 THEN Leaf
@@ -38,6 +43,7 @@ HasSite(it) ==
     [] it.k \in {"fn", "block", "arrowblock"} -> \E i \in 1..Len(it.body) : HasSite(it.body[i])
     [] it.k = "fnparam" -> TRUE
     [] it.k = "arrow" -> HasSite(it.item)
+    [] it.k \in {"arrowp", "arrowblockp"} -> TRUE
     [] it.k = "classfield" -> TRUE
     [] OTHER -> FALSE
 
@@ -59,5 +65,9 @@ Sites == [i \in 1..Len(SiteOpsOf) |-> [id |-> "s" \o ToString(i), kind |-> SiteO
 (* emission: one case per explored behaviour, when the traversal is complete *)
 Emit ==
   Done => PrintT(ToJson([marker |-> "CASE", prop |-> "C06", module |-> mod, sites |-> Sites, predicted |-> trace,
-                         decls |-> SetToSeq(decls), uses |-> SetToSeq(uses), imports |-> SetToSeq(imports), helper |-> helper, opts |-> [DefaultOpts EXCEPT !.enableObjectSlots = eos]]))
+                         decls |-> SetToSeq(decls), uses |-> SetToSeq(uses),
+                         \* the concrete syntax of nested statement lists (block / switch case / catch / finally / labelled block / loop
+                         \* body; function declaration / class method / getter / static block) rotates with the behaviour
+                         variant |-> (Len(ops) + Cardinality(uses) + Len(trace)) % 8,
+                         imports |-> SetToSeq(imports), helper |-> helper, opts |-> [DefaultOpts EXCEPT !.enableObjectSlots = eos]]))
 =============================================================================
